@@ -1,0 +1,14 @@
+//go:build verif
+
+package server
+
+import (
+	"time"
+
+	"github.com/DataDog/datadog-traceroute/traceroute"
+)
+
+// VerifNewServer builds a Server around the given Traceroute.
+func VerifNewServer(tr *traceroute.Traceroute) *Server {
+	return &Server{tr: tr, startTime: time.Now()}
+}
